@@ -585,6 +585,37 @@ pub fn sites(tier: Tier) -> Vec<Site> {
                 }
             }));
     }
+    // a write that fails hard part-way (a slice that is too small) leaves nothing behind: the next file written on the
+    // same thread comes out as its own bytes
+    {
+        let small: Vec<usize> = files.iter().enumerate().filter(|(_, f)| f.bytes.len() <= 200 && f.canonical).map(|(i, _)| i).collect();
+        let mut cases: Vec<(usize, usize)> = vec![];
+        for fi in &small { for room in 0..files[*fi].bytes.len() { cases.push((*fi, room)); } }
+        let followers: Vec<usize> = files.iter().enumerate().filter(|(_, f)| f.canonical && f.bytes.len() <= 2000).map(|(i, _)| i).step_by(9).collect();
+        let (cases, followers, files) = (Arc::new(cases), Arc::new(followers), files.clone());
+        sites.push(Site::new("write-after-failed-write", cases.len() as u64,
+            "every generated file of at most 200 bytes parsed and written into a slice of every length shorter than itself (the write fails), then a handful of other files parsed and written on the same thread: each comes out as its own bytes",
+            move |i, acc| {
+                acc.eval();
+                let (fi, room) = cases[i as usize];
+                let a = &files[fi];
+                let first = guard(|| {
+                    let mut space = vec![0u8; room];
+                    let mut c = Cursor::new(&mut space[..]);
+                    if a.smx { Smx::read(&mut Cursor::new(&a.bytes[..])).map(|v| v.write_le(&mut c).is_ok()).unwrap_or(false) } else { Pth::read(&mut Cursor::new(&a.bytes[..])).map(|v| v.write_le(&mut c).is_ok()).unwrap_or(false) }
+                });
+                for bi in followers.iter() {
+                    let b = &files[*bi];
+                    let replay = json!({"site": "write-after-failed-write", "index": i, "first": a.name, "room": room, "then": b.name});
+                    match guard(|| parse_and_write(b.smx, &b.bytes)) {
+                        Ok(Ok((_, w))) if w == b.bytes => {},
+                        other => { acc.violate(i, format!("C17|{}|write-depends-on-an-earlier-failed-write", if b.smx { "SMX" } else { "PTH" }), format!("{} written right after {} failed to fit {room} bytes ({first:?}): {}", b.name, a.name, match other { Ok(Ok((_, w))) => format!("{} bytes, differing from the file", w.len()), Ok(Err(e)) => e, Err(p) => p }), replay); return; },
+                    }
+                }
+                acc.class("nothing-left-behind-by-a-failed-write");
+                acc.nontrivial();
+            }));
+    }
     // missing file
     sites.push(Site::new("missing-file", 2, "from_pathbuf on a path that does not exist", |i, acc| {
         acc.eval();
